@@ -4,7 +4,7 @@
 //! each listed j the number of second words with y >= j (a prefix: y decreases in v).  TraceRejection.tla compares with the table.
 use crate::rng::ScriptRng;
 use crate::util::*;
-use rand_distr::{Binomial, Distribution};
+use rand_distr::{Binomial, Distribution, Hypergeometric};
 use serde_json::{json, Value};
 use std::io::{BufRead, Write};
 
@@ -27,6 +27,29 @@ pub fn drive(args: &[String]) -> i32 {
         let c: Value = serde_json::from_str(&p).unwrap();
         ncases += 1;
         let id = c["id"].as_i64().unwrap();
+        if c.get("kernel").and_then(|k| k.as_str()) == Some("h2pe") {
+            // H2PE region 1 (central bell): the proposal depends on the first word only, the accepting second words are a prefix
+            let pu = |k: &str| -> u64 { c[k].as_str().unwrap().parse().unwrap() };
+            let (nn, kk, ns) = (pu("N"), pu("K"), pu("n"));
+            let res = guarded(|| -> Vec<Value> {
+                let d = Hypergeometric::new(nn, kk, ns).expect("constructor");
+                let mut r = ScriptRng::new(vec![0, 0], 0);
+                let mut call = |w1: u64, w2: u64| -> (u64, u64) { r.prefix[0] = w1; r.prefix[1] = w2; r.pos = 0; r.state = 13 ^ w2; r.n32 = 0; r.n64 = 0; r.nbytes = 0; let o = d.sample(&mut r); (o, r.words()) };
+                let mut evs = vec![];
+                for (k, a) in c["r1"].as_array().unwrap().iter().enumerate() {
+                    let w1: u64 = a.as_str().unwrap().parse().unwrap();
+                    let (o0, nw0) = call(w1, 0);
+                    let t = first_true(0, ALL, |w| call(w1, w as u64).1 != 2);
+                    evs.push(json!({"op": "h2pe1", "case": id, "k": k + 1, "N": c["N"], "K": c["K"], "n": c["n"], "out": o0.min(1 << 30), "accepted_at_zero": nw0 == 2, "T": l14(t), "show": [format!("{:.12}", t as f64 / 18446744073709551616.0)]}));
+                }
+                evs
+            });
+            match res {
+                Ok(evs) => for mut e in evs { e["res"] = json!("Ok"); out.push(e.to_string()); },
+                Err(p) => out.push(json!({"op": "h2pe1", "case": id, "k": 0, "res": format!("Panic: {}", p), "out": -1, "accepted_at_zero": false, "T": [0]}).to_string()),
+            }
+            continue;
+        }
         let n = c["n"].as_u64().unwrap();
         let pr: f64 = c["p"].as_str().unwrap().parse().unwrap();
         let flipped = pr > 0.5;
